@@ -114,6 +114,7 @@ def part_a(spec, rng, counters, digests, samples, violations, known):
             tg.floats, tg.ints = LITS_F, LITS_I
         term = tg.deferred_term(locs, rng.randrange(1, 6))
         try:
+            sh.guard_literals(term)   # literal-only sub-terms are computed at build time, whatever else fails
             sh.eval(term)       # guarded dry run: drops terms Python cannot evaluate in reasonable time
         except Discard:
             counters["skipped_too_big"] = counters.get("skipped_too_big", 0) + 1
@@ -222,6 +223,7 @@ def mirrored(real, twin, op, op2, counters, relab=False):
 def buildable(shadow, runner, term):
     """Can Python build this term, and does it print with finite constants only (the property's language)?"""
     try:
+        shadow.guard_literals(term)
         shadow.eval(term)
         text = str(runner.build(term))
     except Exception:
